@@ -128,6 +128,38 @@ def _as_parent_location(o):
     return Parent(location=o)
 
 
+def _tx_from_location(o):
+    from inscripta.biocantor.gene.transcript import TranscriptInterval
+
+    fn = TranscriptInterval.from_chunk_relative_location if o.has_ancestor_of_type("sequence_chunk") else TranscriptInterval.from_location
+    return fn(o, transcript_id="from_loc")
+
+
+def _feature_from_location(o):
+    from inscripta.biocantor.gene.feature import FeatureInterval
+
+    fn = FeatureInterval.from_chunk_relative_location if o.has_ancestor_of_type("sequence_chunk") else FeatureInterval.from_location
+    return fn(o, feature_name="from_loc", feature_types=["x"])
+
+
+def _cds_from_location(o, frame):
+    from inscripta.biocantor.gene.cds import CDSInterval
+
+    frames = CDSInterval.construct_frames_from_location(o, frame)
+    fn = CDSInterval.from_chunk_relative_location if o.has_ancestor_of_type("sequence_chunk") else CDSInterval.from_location
+    return fn(o, frames)
+
+
+def _liftover_static(o, parent):
+    from inscripta.biocantor.gene.interval import AbstractInterval
+
+    return AbstractInterval.liftover_location_to_seq_chunk_parent(o, parent)
+
+
+def _compare(o, other):
+    return o.compare(other)
+
+
 COMMON_INTERVAL = [
     S("__len__", _len),
     S("__hash__", _hash, weight=0.7),
@@ -278,6 +310,10 @@ CDS_OPS = FEATURE_INTERVAL_COMMON + [
 
 FEATURE_OPS = FEATURE_INTERVAL_COMMON + GFF_BED + [
     A("feature_types"),
+    A("is_coding", weight=0.3),
+    A("has_in_frame_stop", weight=0.3),
+    A("cds_start", weight=0.2),
+    A("cds_location", weight=0.2),
     M("intersect", "loc", result="feature"),
     M("incorporate_variants", "ref:variants", result="feature", weight=0.8),
 ]
@@ -305,7 +341,28 @@ VARIANT_OPS = [
     M("lift_over_location", "loc_chrom", result="location", weight=3.0),
     M("get_spliced_sequence", result="sequence"),
     M("get_reference_sequence", result="sequence"),
+    M("get_genomic_sequence", result="sequence"),
     S("__eq__", _eq, "twin"),
+    A("chromosome_span", result="location"),
+    A("chromosome_gaps_location", result="location"),
+    A("chunk_relative_span", result="location"),
+    A("chunk_relative_blocks"),
+    A("chunk_relative_start"),
+    A("chunk_relative_end"),
+    A("chunk_relative_size"),
+    M("sequence_pos_to_feature", "cpos"),
+    M("feature_pos_to_sequence", "rpos"),
+    M("chunk_relative_pos_to_feature", "kpos"),
+    M("feature_interval_to_sequence", "rint"),
+    M("feature_interval_to_chunk_relative", "rint"),
+    M("has_ancestor_of_type", "seqtype"),
+    M("first_ancestor_of_type", "seqtype", result="parent"),
+    M("lift_over_to_first_ancestor_of_type", "seqtype", result="location"),
+    M("liftover_to_parent_or_seq_chunk_parent", "parentobj", weight=0.7),
+    A("identifiers_dict", weight=0.4),
+    A("is_primary_feature", weight=0.3),
+    S("from_dict(to_dict)", _from_dict_roundtrip, weight=0.8),
+    S("hash==twin", _hash_eq, "twin"),
 ]
 
 COLLECTION_COMMON = [
@@ -342,6 +399,13 @@ COLLECTION_COMMON = [
     S("from_dict(to_dict)", _from_dict_roundtrip, weight=0.6),
     S("child", _child, "childidx", result="child", weight=3.0),
     M("liftover_to_parent_or_seq_chunk_parent", "parentobj", weight=0.7),
+    A("chunk_relative_blocks"),
+    A("chunk_relative_start"),
+    A("chunk_relative_end"),
+    A("chunk_relative_strand"),
+    A("num_chunk_relative_blocks"),
+    M("first_ancestor_of_type", "seqtype", result="parent"),
+    A("sequence_name", weight=0.3),
 ]
 
 GENE_OPS = COLLECTION_COMMON + [
@@ -401,6 +465,23 @@ VARIANT_COLLECTION_OPS = [
     M("lift_over_location", "loc_chrom", result="location", weight=3.0),
     M("query_by_guids", "guids:children", result="variant_collection"),
     S("__eq__", _eq, "twin"),
+    S("hash==twin", _hash_eq, "twin"),
+    S("from_dict(to_dict)", _from_dict_roundtrip, weight=0.8),
+    A("blocks"),
+    A("strand"),
+    A("num_blocks"),
+    A("is_chunk_relative"),
+    A("chunk_relative_size"),
+    A("chunk_relative_start"),
+    A("chunk_relative_end"),
+    A("identifiers", weight=0.4),
+    A("id", weight=0.3),
+    A("name", weight=0.3),
+    M("has_ancestor_of_type", "seqtype"),
+    M("first_ancestor_of_type", "seqtype", result="parent"),
+    M("lift_over_to_first_ancestor_of_type", "seqtype", result="location"),
+    M("get_reference_sequence", result="sequence"),
+    M("liftover_to_parent_or_seq_chunk_parent", "parentobj", weight=0.7),
 ]
 
 ANNOTATION_COLLECTION_OPS = COLLECTION_COMMON + [
@@ -488,6 +569,12 @@ LOCATION_OPS = [
     S("__eq__(ref)", _eq, "ref:location"),
     S("construct_frames_from_location", _construct_frames, "frame"),
     S("Parent(location=self)", _as_parent_location, result="parent", weight=1.5),
+    A("length", weight=0.4),
+    S("compare", _compare, "loc", weight=0.6),
+    S("TranscriptInterval.from_location", _tx_from_location, result="transcript", weight=1.2),
+    S("FeatureInterval.from_location", _feature_from_location, result="feature", weight=1.0),
+    S("CDSInterval.from_location", _cds_from_location, "frame", result="cds", weight=1.2),
+    S("liftover_location_to_seq_chunk_parent", _liftover_static, "parentobj", result="location", weight=1.5),
 ]
 
 PARENT_OPS = [
